@@ -27,7 +27,15 @@ def _ids(b):
     return d, rest
 
 
+def _block_ids(b):
+    """(txid, wtxid, raw) of every transaction of a block, as blockchain.block_deser reports them"""
+    import bits.blockchain
+    d = bits.blockchain.block_deser(b)
+    return [(bytes.fromhex(t["txid"]), bytes.fromhex(t["wtxid"]), bytes.fromhex(t["raw"])) for t in d["txns"]]
+
+
 IMPL = {
+    "block_ids": _block_ids,
     "tx_deser": lambda b: _bits().tx.tx_deser(b, include_raw=True),
     "tx_ser": lambda t: txgen.api_ser(txgen.norm_tx(t)),
     "txid": lambda b: _bits().tx.txid(b),
@@ -75,6 +83,12 @@ def gen_cases(rng, tier):
         for k in range(len(txs)):
             tail = b"".join(sers[k + 1:])
             out.append(case("block-of-tx", "tx_deser", sers[k] + tail, t=enc(txs[k]), nrest=len(tail)))
+        # ... and the same transactions inside a block (header + count + txs), through blockchain.block_deser:
+        # ids and raw bytes must be the ones each transaction has when parsed alone (first position included)
+        out.append(case("block-deser-ids", "block_ids", rng.randbytes(80) + txgen.ref_cs(len(sers)) + b"".join(sers)))
+        segfirst = sorted(range(len(txs)), key=lambda i: txs[i][3] is None)     # a segwit transaction first
+        s2 = [sers[i] for i in segfirst]
+        out.append(case("block-deser-ids-segwit-first", "block_ids", rng.randbytes(80) + txgen.ref_cs(len(s2)) + b"".join(s2)))
     for name, raw in txgen.corpus():
         cls = "corpus-genesis" if name.startswith("genesis") else "corpus-bip143"
         for tn, tr in (("", b""), ("+own-last4", raw[-4:]), ("+copy", raw), ("+byte-00", b"\x00")):
@@ -139,7 +153,29 @@ def ids_statement(t, trailer):
     return None
 
 
+def _oracle_block(c):
+    """every transaction of a block has the ids / raw bytes it has when parsed alone (independent reference: hashlib)"""
+    b = c["args"][0]
+    got = _block_ids(b)
+    import bits.tx as m
+    rest = b[80 + (1 if b[80] < 253 else 3):]
+    for i, (txid_, wtxid_, raw_) in enumerate(got):
+        d, rest2 = m.tx_deser(rest, include_raw=True)
+        raw = rest[:len(rest) - len(rest2)]
+        t = txgen.strict_parse(raw) if hasattr(txgen, "strict_parse") else None
+        if raw_ != raw:
+            return "block transaction %d: raw bytes differ from the bytes of that transaction" % i
+        if wtxid_ != txgen.hash256(raw):
+            return "block transaction %d: wtxid is not HASH256 of its complete serialisation" % i
+        if bytes.fromhex(d["txid"]) != txid_ or bytes.fromhex(d["wtxid"]) != wtxid_:
+            return "block transaction %d: ids inside the block differ from the ids of the same bytes parsed alone" % i
+        rest = rest2
+    return None
+
+
 def prop_oracle(c):
+    if c["op"] == "block_ids":
+        return _oracle_block(c)
     if c["op"] == "txid":
         import bits.tx as m
         return None if m.txid(c["args"][0]) == txgen.hash256(c["args"][0]) else "txid(x) is not SHA256(SHA256(x))"
